@@ -72,6 +72,13 @@ Theorem C01_upload_plain : forall st odt v,
   (odt = None \/ exists t, odt = Some t /\ od_var_size t = None) -> expected_upload st odt v = wire_value st v.
 Proof. exact expected_upload_plain. Qed.
 
+(* ObjectDictionary.get_variable as upload uses it: every element 1..255 of an ARRAY has the declared type of
+   the array's elements, whether the dictionary lists it or synthesises it from the member at sub-index 1 *)
+Theorem C01_array_member_declared : forall ms t sub,
+  zassoc 1 ms = Some (Some t) -> 0 < sub < 256 -> zassoc sub ms = None ->
+  od_get_type (OArrT ms) sub = Some t.
+Proof. exact array_member_declared. Qed.
+
 (* open(index, subindex, "rb", buffering=0).read() *)
 Theorem C01_raw_read_returns : forall (w : cworld) idx sub v,
   net_wf (w_s w) -> n_fault (w_s w) = None -> mux_ok idx sub ->
@@ -132,7 +139,7 @@ Proof. vm_compute. repeat split; reflexivity. Qed.
 
 Example C01_nv_back_to_back :
   let sty := {| st_size_ind := true; st_expedite := true; st_exp_size := true; st_lazy_end := false; st_segs := [2; 0] |} in
-  let ts := [ {| t_style := sty; t_fault := None; t_pre := []; t_x := TDl 8192 0 [9; 8; 7; 6; 5; 4; 3; 2; 1] (Some 9) false [9; 2] |};
+  let ts := [ {| t_style := sty; t_fault := None; t_pre := []; t_x := TDl 8192 5 [9; 8; 7; 6; 5; 4; 3; 2; 1] (Some 9) false [9; 2] |};
               {| t_style := sty; t_fault := None; t_pre := [[0; 1; 2; 3; 4; 5; 6; 7]]; t_x := TUl 8192 5 (OArrT [(0, Some 5); (1, Some 7)]) UUpload |};
               {| t_style := sty; t_fault := None; t_pre := []; t_x := TUl 4096 0 ONone URaw |} ] in
   seq_ok [(4096, [1; 2])] ts /\
@@ -144,7 +151,7 @@ Proof.
     try (unfold mux_ok; lia); try (vm_compute; reflexivity).
   - right. reflexivity.
   - vm_compute. repeat split; discriminate.
-  - replace (zassoc (mux_key 8192 0) _) with (Some [9; 8; 7; 6; 5; 4; 3; 2; 1]) by reflexivity.
+  - replace (zassoc (mux_key 8192 5) _) with (Some [9; 8; 7; 6; 5; 4; 3; 2; 1]) by reflexivity.
     repeat split; try exact I; try (unfold FUEL; cbn [length st_segs]; lia); vm_compute; reflexivity.
   - replace (zassoc (mux_key 4096 0) _) with (Some [1; 2]) by reflexivity.
     repeat split; try exact I; try (unfold FUEL; cbn [length st_segs]; lia); vm_compute; reflexivity.
@@ -155,6 +162,7 @@ Print Assumptions C01_download_api.
 Print Assumptions C01_upload_returns.
 Print Assumptions C01_upload_numeric.
 Print Assumptions C01_upload_plain.
+Print Assumptions C01_array_member_declared.
 Print Assumptions C01_raw_read_returns.
 Print Assumptions C01_buffered_read_returns.
 Print Assumptions C01_back_to_back.
